@@ -375,6 +375,53 @@ pub fn probe(func: &str) -> bool {
             }
         }
     }
+    // ---- Number container, permitted mixes: the container's operator gives what the contained kinds' operator gives
+    // (float with first order, float with second order, same kind), both operand orders, + - * /
+    {
+        use rateslib::dual::Number;
+        let (d2, _) = mk2(2.0, &["x", "y"], &[1.0, 4.0], &[2.0, 3.0, 3.0, 5.0]);
+        let (e2, _) = mk2(-3.0, &["y", "z"], &[2.0, 0.5], &[1.0, 0.25, 0.25, 7.0]);
+        let (d1, e1) = (to1(&d2), to1(&e2));
+        let f = 3.5_f64;
+        macro_rules! chk {
+            ($what:expr, $got:expr, $want:expr) => {{
+                let got = panic::catch_unwind(panic::AssertUnwindSafe(|| $got));
+                let want = $want;
+                let same = match &got { Ok(g) => panic::catch_unwind(panic::AssertUnwindSafe(|| *g == want)).unwrap_or(false), Err(_) => false };
+                if !same {
+                    report("probe", func, $what, &match &got { Ok(g) => format!("{:?}", g), Err(_) => "PANIC".to_string() }, &format!("{:?}", want), false);
+                    return true;
+                }
+            }};
+        }
+        let (nf, n1, m1, n2, m2) = (Number::F64(f), Number::Dual(d1.clone()), Number::Dual(e1.clone()), Number::Dual2(d2.clone()), Number::Dual2(e2.clone()));
+        chk!("Number::F64(3.5) + Number::Dual(2, x:1, y:4)", &nf + &n1, Number::Dual(f + &d1));
+        chk!("Number::F64(3.5) - Number::Dual(2, x:1, y:4)", &nf - &n1, Number::Dual(f - &d1));
+        chk!("Number::F64(3.5) * Number::Dual(2, x:1, y:4)", &nf * &n1, Number::Dual(f * &d1));
+        chk!("Number::F64(3.5) / Number::Dual(2, x:1, y:4)", &nf / &n1, Number::Dual(f / &d1));
+        chk!("Number::Dual(2, x:1, y:4) + Number::F64(3.5)", &n1 + &nf, Number::Dual(&d1 + f));
+        chk!("Number::Dual(2, x:1, y:4) - Number::F64(3.5)", &n1 - &nf, Number::Dual(&d1 - f));
+        chk!("Number::Dual(2, x:1, y:4) * Number::F64(3.5)", &n1 * &nf, Number::Dual(&d1 * f));
+        chk!("Number::Dual(2, x:1, y:4) / Number::F64(3.5)", &n1 / &nf, Number::Dual(&d1 / f));
+        chk!("Number::F64(3.5) + Number::Dual2(2, x:1, y:4, hess!=0)", &nf + &n2, Number::Dual2(f + &d2));
+        chk!("Number::F64(3.5) - Number::Dual2(2, x:1, y:4, hess!=0)", &nf - &n2, Number::Dual2(f - &d2));
+        chk!("Number::F64(3.5) * Number::Dual2(2, x:1, y:4, hess!=0)", &nf * &n2, Number::Dual2(f * &d2));
+        chk!("Number::F64(3.5) / Number::Dual2(2, x:1, y:4, hess!=0)", &nf / &n2, Number::Dual2(f / &d2));
+        chk!("Number::Dual2(2, x:1, y:4, hess!=0) + Number::F64(3.5)", &n2 + &nf, Number::Dual2(&d2 + f));
+        chk!("Number::Dual2(2, x:1, y:4, hess!=0) - Number::F64(3.5)", &n2 - &nf, Number::Dual2(&d2 - f));
+        chk!("Number::Dual2(2, x:1, y:4, hess!=0) * Number::F64(3.5)", &n2 * &nf, Number::Dual2(&d2 * f));
+        chk!("Number::Dual2(2, x:1, y:4, hess!=0) / Number::F64(3.5)", &n2 / &nf, Number::Dual2(&d2 / f));
+        chk!("Number::Dual(2, x:1, y:4) + Number::Dual(-3, y:2, z:0.5)", &n1 + &m1, Number::Dual(&d1 + &e1));
+        chk!("Number::Dual(2, x:1, y:4) - Number::Dual(-3, y:2, z:0.5)", &n1 - &m1, Number::Dual(&d1 - &e1));
+        chk!("Number::Dual(2, x:1, y:4) * Number::Dual(-3, y:2, z:0.5)", &n1 * &m1, Number::Dual(&d1 * &e1));
+        chk!("Number::Dual(2, x:1, y:4) / Number::Dual(-3, y:2, z:0.5)", &n1 / &m1, Number::Dual(&d1 / &e1));
+        chk!("Number::Dual2(2, x:1, y:4, hess) + Number::Dual2(-3, y:2, z:0.5, hess)", &n2 + &m2, Number::Dual2(&d2 + &e2));
+        chk!("Number::Dual2(2, x:1, y:4, hess) - Number::Dual2(-3, y:2, z:0.5, hess)", &n2 - &m2, Number::Dual2(&d2 - &e2));
+        chk!("Number::Dual2(2, x:1, y:4, hess) * Number::Dual2(-3, y:2, z:0.5, hess)", &n2 * &m2, Number::Dual2(&d2 * &e2));
+        chk!("Number::Dual2(2, x:1, y:4, hess) / Number::Dual2(-3, y:2, z:0.5, hess)", &n2 / &m2, Number::Dual2(&d2 / &e2));
+        chk!("Number::F64(3.5) / Number::F64(-3)", &nf / &Number::F64(-3.0), Number::F64(f / -3.0));
+        chk!("Number::F64(3.5) - Number::F64(-3)", &nf - &Number::F64(-3.0), Number::F64(f - -3.0));
+    }
     // ---- gradient read-back for requests that are exact permutations of the stored names (fast paths must honour the order asked)
     for (ia, a, ra) in &ops {
         let stored: Vec<String> = a.vars().iter().cloned().collect();
